@@ -2,7 +2,7 @@
    bit_reader.rs read_prefix_table_idx) against the abstractions used by the rest of the
    development: Codec.tsearch / Codec.read_code_at (checked search) and Codec.read_code
    (unchecked search, far from the end of the words). *)
-From QCo.Lemmas Require Import Tactics BitsL BodyL TruncL FastL WordsL.
+From QCo.Lemmas Require Import Tactics BitsL CodecL BodyL TruncL FastL WordsL.
 From QCo.Model Require Import Base Consts Codec Words Huff.
 Open Scope N_scope.
 
@@ -26,7 +26,7 @@ Definition t_bs (l : list N) : bits := map (fun x => negb (x =? 0)) l.
 (* code lengths 1,2,3,4,4 *)
 Definition t_tbl5 : list prefix :=
   map t_mkp [t_bs [0]; t_bs [1;0]; t_bs [1;1;0]; t_bs [1;1;1;0]; t_bs [1;1;1;1]].
-(* 1^k 0 for k < n, and 1^n: deeper than one 6-bit table when n > 6 *)
+(* 1^k 0 for k < n, and 1^n: deeper than one [stride]-bit table when n > stride *)
 Definition t_comb (n : nat) : list prefix :=
   map t_mkp (map (fun k => repeat true k ++ [false]) (seq 0 n) ++ [repeat true n]).
 (* an irregular complete tree *)
@@ -53,17 +53,21 @@ Example t_build5 :
                ++ [HLeaf (t_mkp (t_bs [1;1;1;0])); HLeaf (t_mkp (t_bs [1;1;1;1]))])).
 Proof. vm_compute. reflexivity. Qed.
 
-(* depth 9: a 6-bit root table whose last entry is a 3-bit table *)
+(* depth stride + 3 (9 for the stride 6 of the repository): a [stride]-bit root table whose
+   last entry is a 3-bit table.  Computed with the generated constant, whatever it is. *)
 Example t_build_comb9 :
-  match hfrom 32 (t_comb 9) with
-  | Ok (HNode 6 ch) =>
-      length ch = 64%nat /\
+  let n := stride in
+  match hfrom 32 (t_comb (n + 3)) with
+  | Ok (HNode k ch) =>
+      k = N.of_nat n /\
+      length ch = (2 ^ n)%nat /\
       nth 0 ch (HNode 0 []) = HLeaf (t_mkp [false]) /\
-      nth 62 ch (HNode 0 []) = HLeaf (t_mkp (repeat true 5 ++ [false])) /\
-      nth 63 ch (HNode 0 []) =
-        HNode 3 (repeat (HLeaf (t_mkp (repeat true 6 ++ [false]))) 4
-                 ++ repeat (HLeaf (t_mkp (repeat true 7 ++ [false]))) 2
-                 ++ [HLeaf (t_mkp (repeat true 8 ++ [false])); HLeaf (t_mkp (repeat true 9))])
+      nth (2 ^ n - 2) ch (HNode 0 []) = HLeaf (t_mkp (repeat true (n - 1) ++ [false])) /\
+      nth (2 ^ n - 1) ch (HNode 0 []) =
+        HNode 3 (repeat (HLeaf (t_mkp (repeat true n ++ [false]))) 4
+                 ++ repeat (HLeaf (t_mkp (repeat true (n + 1) ++ [false]))) 2
+                 ++ [HLeaf (t_mkp (repeat true (n + 2) ++ [false]));
+                     HLeaf (t_mkp (repeat true (n + 3)))])
   | _ => False
   end.
 Proof. vm_compute. repeat split; reflexivity. Qed.
@@ -301,7 +305,7 @@ Definition hfilter (cands : list prefix) (dpt : nat) (idxbits : bits) : list pre
   filter (fun p => compatible (skipn dpt (p_code p)) idxbits) cands.
 
 Definition hstride (cands : list prefix) (dpt : nat) : nat :=
-  Nat.min 6 (max_code_len cands - dpt).
+  Nat.min stride (max_code_len cands - dpt).
 
 Lemma hbuild_single f p d : hbuild f [p] d = Ok (HLeaf p).
 Proof. destruct f; reflexivity. Qed.
@@ -317,7 +321,8 @@ Lemma hbuild_unfold f cands dpt : (2 <= length cands)%nat ->
                  (dpt + hstride cands dpt)) (seq 0 (2 ^ hstride cands dpt)));
      Ok (HNode (N.of_nat (hstride cands dpt)) children)).
 Proof.
-  intros H. destruct cands as [|q [|q2 r]]; cbn [length] in H; try lia. reflexivity.
+  intros H. destruct cands as [|q [|q2 r]]; cbn [length] in H; try lia.
+  unfold hstride. rewrite <- stride_to_nat. reflexivity.
 Qed.
 
 (* inversion of a successful build on a list that is not a singleton *)
@@ -582,7 +587,7 @@ Qed.
 (* ================================================================== *)
 (* 3. one stride of Codec.tsearch, with the real position              *)
 (* ================================================================== *)
-(* Codec.tsearch looks at the position only when fewer than 70 bits are left; with the
+(* Codec.tsearch looks at the position only when fewer than 64 + stride bits are left; with the
    position computed always the three cases of read_prefix_table_idx are plain to see *)
 Definition tstep (f : nat) (tb : N) (cands : list prefix) (dpt : nat) (s : bits) : res prefix :=
   let t := hstride cands dpt in
@@ -603,18 +608,19 @@ Lemma tsearch_tstep f tb cands dpt s : (forall q, cands <> [q]) ->
   tsearch (S f) tb cands dpt s = tstep f tb cands dpt s.
 Proof.
   intros Hns. unfold tstep, hstride, hfilter.
+  pose proof stride_le_footer as Hs8.
   destruct cands as [|q [|q2 r]]; [ | exfalso; apply (Hns q); reflexivity | ];
   cbn [tsearch]; cbv zeta; rewrite firstn_zpad, firstn_length;
-  set (t := Nat.min 6 (max_code_len _ - dpt));
-  assert (Ht : (t <= 6)%nat) by (unfold t; lia);
+  set (t := Nat.min stride (max_code_len _ - dpt));
+  assert (Ht : (t <= stride)%nat) by (unfold t; lia);
   set (cands' := filter _ _); clearbody cands' t;
   set (jr := N.to_nat ((tb - Nlen s) mod 64));
   assert (Hjr : (jr < 64)%nat) by (unfold jr; lia); clearbody jr;
   set (a := length s); clearbody a;
-  (destruct (Nat.eqb_spec (Nat.min 70 a) 0) as [E0|E0];
+  (destruct (Nat.eqb_spec (Nat.min (64 + stride) a) 0) as [E0|E0];
    destruct (Nat.eqb_spec a 0) as [E1|E1]; try lia; [reflexivity|]);
-  (destruct (Nat.ltb_spec (Nat.min 70 a) 70) as [Hlt|Hge];
-   [ replace (Nat.min 70 a) with a by lia;
+  (destruct (Nat.ltb_spec (Nat.min (64 + stride) a) (64 + stride)) as [Hlt|Hge];
+   [ replace (Nat.min (64 + stride) a) with a by lia;
      destruct (Nat.leb_spec (t + jr) 64) as [HA|HA]; cbn [negb andb];
      [ destruct (Nat.eqb_spec (Nat.min t a) t) as [E2|E2];
        destruct (Nat.leb_spec t a) as [E3|E3]; try lia; [reflexivity|];
@@ -623,7 +629,7 @@ Proof.
        destruct (Nat.leb_spec a (64 - jr)) as [E3|E3]; try lia; cbn [negb];
        [rewrite Nat.eqb_refl; reflexivity | reflexivity] ]
    | destruct (Nat.leb_spec (t + 0) 64) as [HA|HA]; [|lia]; cbn [negb andb];
-     destruct (Nat.eqb_spec (Nat.min t (Nat.min 70 a)) t) as [E2|E2]; [|lia];
+     destruct (Nat.eqb_spec (Nat.min t (Nat.min (64 + stride) a)) t) as [E2|E2]; [|lia];
      destruct (Nat.leb_spec (t + jr) 64) as [HB|HB];
      [ destruct (Nat.leb_spec t a) as [E3|E3]; [reflexivity|lia]
      | destruct (Nat.leb_spec a (64 - jr)) as [E3|E3]; [lia|reflexivity] ] ]).
@@ -705,7 +711,7 @@ Proof. rewrite <- (Nat2N.id dpt) at 1. apply rd_stream_skipn. Qed.
 Lemma hsearch_loop_sim ws tb ps p0 :
   bw_ok ws tb -> table_ok ps = true ->
   forall fb ft cands dpt node i j,
-  (max_code_len cands - dpt <= 6 * ft)%nat ->
+  (max_code_len cands - dpt <= stride * ft)%nat ->
   hbuild fb cands dpt = Ok node ->
   cands = filter (fun q => compatible (p_code q) (zpad dpt (rd_stream ws tb p0))) ps ->
   j <= 64 -> 64 * i + j = p0 + N.of_nat dpt ->
@@ -713,6 +719,7 @@ Lemma hsearch_loop_sim ws tb ps p0 :
        (tsearch ft tb cands dpt (skipn dpt (rd_stream ws tb p0))).
 Proof.
   intros Hbw Hok. set (orig := rd_stream ws tb p0).
+  pose proof stride_pos as Hs1. pose proof stride_le_footer as Hs8.
   pose proof (bw_tb_le ws tb Hbw) as [Hle Hex].
   induction fb as [|f IH]; intros ft cands dpt node i j Hfuel Hb Hc Hj Hpos.
   - (* no build fuel: only a leaf can have been built *)
@@ -743,8 +750,8 @@ Proof.
       pose proof (several_depth ps _ cands Hok Hc Hlen) as HSD. rewrite zpad_length in HSD.
       destruct ft as [|ft]; [lia|].
       set (t := hstride cands dpt) in *.
-      assert (Ht : (1 <= t <= 6)%nat) by (unfold t, hstride; lia).
-      assert (Ht2 : (max_code_len cands - (dpt + t) <= 6 * ft)%nat) by (unfold t, hstride; lia).
+      assert (Ht : (1 <= t <= stride)%nat) by (unfold t, hstride; lia).
+      assert (Ht2 : (max_code_len cands - (dpt + t) <= stride * ft)%nat) by (unfold t, hstride; lia).
       rewrite (tsearch_tstep ft tb cands dpt _ Hns). unfold tstep. fold t. cbv zeta.
       assert (Hs : skipn dpt orig = rd_stream ws tb (64 * i + j)).
       { unfold orig. rewrite skipn_rd_stream, Hpos. reflexivity. }
@@ -884,7 +891,7 @@ Proof.
     rewrite (hbuild_unfold f cands (length B) Hl).
     destruct (Nat.ltb_spec (max_code_len cands) (length B)) as [H|_]; [lia|].
     set (t := hstride cands (length B)).
-    assert (Ht : (1 <= t)%nat) by (unfold t, hstride; lia).
+    assert (Ht : (1 <= t)%nat) by (pose proof stride_pos; unfold t, hstride; lia).
     destruct (hcollect_all_ok
       (fun idx => hbuild f (filter (hpossible (length B) (hsub_bits t (N.of_nat idx))) cands)
                          (length B + t)) (seq 0 (2 ^ t))) as (cs & Ecs).
@@ -932,7 +939,7 @@ Proof.
   intros Hok Hne HM Hfrom Hbw Hj.
   pose proof (hfrom_build w ps tbl Hne Hfrom) as Hb.
   pose proof (hsearch_loop_sim ws tb ps (64 * i + j) Hbw Hok (S (max_code_len ps)) 33 ps 0 tbl i j
-                ltac:(lia) Hb) as S.
+                ltac:(pose proof stride_reach; lia) Hb) as S.
   cbn [zpad skipn N.of_nat] in S. unfold hsearch. apply S.
   - symmetry. apply filter_nil_compat.
   - exact Hj.
@@ -1008,6 +1015,7 @@ Lemma hsearch_unchecked_sim ws ps p0 :
     64 * i' + j' = p0 + Nlen (p_code p) /\ j' <= 64.
 Proof.
   intros Hwok Hok Hfit. set (u := skipn (N.to_nat p0) (words_bits ws)).
+  pose proof stride_pos as Hs1. pose proof stride_le_footer as Hs8.
   assert (Lu : (max_code_len ps <= length u)%nat).
   { unfold u. rewrite skipn_length, words_bits_length. unfold Nlen in Hfit. lia. }
   assert (Leaf : forall q dpt i j,
@@ -1041,7 +1049,7 @@ Proof.
       pose proof (max_code_len_filter (fun x => compatible (p_code x) (zpad dpt u)) ps) as MF.
       rewrite <- Hc in MF.
       set (t := hstride cands dpt) in *.
-      assert (Ht : (1 <= t <= 6 /\ dpt + t <= max_code_len ps)%nat) by (unfold t, hstride; lia).
+      assert (Ht : (1 <= t <= stride /\ dpt + t <= max_code_len ps)%nat) by (unfold t, hstride; lia).
       set (s := skipn dpt u).
       assert (Ls : (t <= length s)%nat) by (unfold s; rewrite skipn_length; lia).
       assert (Hseg : seg ws (N.to_nat (64 * i + j)) (N.to_nat (N.of_nat t)) = zpad t s).
